@@ -3,6 +3,8 @@
 ENGINES = [
     {'name': 'EQ', 'path': 'vf/eq.py, vf/sem.py', 'serves_properties': ['C08', 'C09', 'C10', 'C13', 'C14'],
      'kind_free_text': 'real hpl.rewrite / hpl.ast code run on enumerated trees; input and output ASTs translated to quantifier-free z3 terms; equivalence decided for all valuations; models replayed through an independent Python evaluator'},
+    {'name': 'SP', 'path': 'vf/sp.py', 'serves_properties': ['C02', 'C15'],
+     'kind_free_text': 'decision-list symbolic executor running the real hpl.ast constructors/queries on str proxies whose identity is a z3 Int (symbolic alias/variable/channel names)'},
     {'name': 'TR', 'path': 'vf/tr.py', 'serves_properties': ['C12'],
      'kind_free_text': 'z3 formula of the reference trace semantics generated from real HplProperty objects over a symbolic timed trace; Python evaluator for replay'},
     {'name': 'SX', 'path': 'vf/sx.py, vf/harness/', 'serves_properties': ['C08', 'C11', 'C14'],
@@ -76,6 +78,15 @@ CHECKS['C12'] = {
              'length bound (symbolic topics, real timestamps, payloads), under two readings of scope re-activation; hand-made wrong splits must be distinguished (vacuity guard).'),
     'note': 'Trusted: z3; the reference trace semantics of DESIGN.md 3.3 (docs/lang.md is informal), implemented twice (z3 generator and Python evaluator used for replay).',
     'technique': 'z3 bounded model checking over symbolic timed traces of the real canonical_form output vs input',
+}
+
+CHECKS['C02'] = {
+    'engine': 'SP', 'category': 'other', 'design_ref': 'DESIGN.md 1 (SP), 3.2, 4 (C02)',
+    'text': ('Symbolic names: the real constructors and sanity check run on z3-backed str proxies under every feasible decision sequence, for every enumerated shape '
+             '(scope x pattern x widths x alias/reference placement x construction route); the accept/reject outcome must equal an oracle written from the statement on every path. '
+             'All coincidence patterns of alias, reference, variable and channel names are covered; shapes are bounded.'),
+    'note': 'Trusted: z3; the proxy str subclass (every path is re-run with real str names on the real code and must agree); the oracle in vf/props.py.',
+    'technique': 'symbolic execution of the real constructors on z3-backed name proxies (all feasible paths) vs statement oracle',
 }
 
 NOT_APPLICABLE = {}
